@@ -11,7 +11,7 @@ WORK = os.environ.get("VERIF_WORK", os.path.join(VERIF, "work"))
 REPLAY = os.environ.get("VERIF_REPLAY", os.path.join(VERIF, "replay"))
 EVID = os.environ.get("VERIF_EVID", os.path.join(VERIF, "evidence"))
 REPO = os.environ.get("VERIF_REPO", "/repo")
-CACHE = os.path.join(VERIF, "work", "cache")      # model results depend on spec/ only
+CACHE = os.environ.get("VERIF_CACHE", os.path.join(VERIF, "work", "cache"))      # model results depend on spec/ only
 JAR = "/opt/veriftools/tla/tla2tools.jar:/opt/veriftools/tla/CommunityModules-deps.jar"
 NCPU = os.cpu_count() or 4
 
